@@ -59,10 +59,16 @@ func (w Week) Period() Period {
 		if since.Weekday() == 1 {
 			break
 		}
+		if since.Year() == 0 && since.Month() == 1 && since.Day() == 1 {
+			break
+		}
 		since = since.PlusDays(-1)
 	}
 	for {
 		if until.Weekday() == 7 {
+			break
+		}
+		if until.Year() == 9999 && until.Month() == 12 && until.Day() == 31 {
 			break
 		}
 		until = until.PlusDays(1)
